@@ -23,15 +23,26 @@ def sh(cmd, **kw):
                           **kw)
 
 
-def record(pid, wt, needs):
+def record(pid, wt, needs, patch=None, demo=None):
+    """patch/demo given: the worktree holds the pristine sources plus the
+    named patch and demonstration files (two changes per worktree)."""
     d = os.path.join(ROOT, "seeded", pid)
     os.makedirs(d, exist_ok=True)
+    if patch:
+        sh("git checkout -- nessai", cwd=wt)
+        r = sh(f"git apply {patch}", cwd=wt)
+        if r.returncode:
+            print("patch does not apply:", r.stderr)
+            return 2
     diff = sh("git diff -- nessai", cwd=wt).stdout
     if not diff.strip():
         print("no change in worktree")
         return 2
     open(os.path.join(d, "patch.diff"), "w").write(diff)
-    shutil.copy(os.path.join(wt, "demo.py"), os.path.join(d, "demo.py"))
+    shutil.copy(os.path.join(wt, demo or "demo.py"),
+                os.path.join(d, "demo.py"))
+    if demo:
+        shutil.copy(os.path.join(wt, demo), os.path.join(wt, "demo.py"))
     env = dict(os.environ, PYTHONPATH=wt, MPLBACKEND="Agg")
     with_change = subprocess.run(["/venv/bin/python", "demo.py"], cwd=wt,
                                  env=env, capture_output=True, text=True)
@@ -42,7 +53,8 @@ def record(pid, wt, needs):
         without = subprocess.run(["/venv/bin/python", "demo.py"], cwd=wt,
                                  env=env, capture_output=True, text=True)
     finally:
-        sh(f"git apply {os.path.join(d, 'patch.diff')}", cwd=wt)
+        if not patch:
+            sh(f"git apply {os.path.join(d, 'patch.diff')}", cwd=wt)
     meta = {
         "property": pid[:3],
         "needs_to_manifest": needs,
@@ -108,7 +120,7 @@ def check(pid, checks, apply=False, tier="quick"):
 
 if __name__ == "__main__":
     if sys.argv[1] == "record":
-        sys.exit(record(sys.argv[2], sys.argv[3], sys.argv[4]))
+        sys.exit(record(*sys.argv[2:7]))
     else:
         args = [a for a in sys.argv[2:] if not a.startswith("--")]
         pid = args[0]
